@@ -108,6 +108,9 @@ def make_cases(rng, thorough):
         F = int(rng.integers(1, 4))
         n1 = int(rng.choice([2, 3, 5, 8, 13, 24, 37]))
         n2 = n1 if selfo else int(rng.choice([1, 4, 9, 20]))
+        if not selfo:
+            # the cross case in both shapes, in turn: a few sites against many (fewer sites than chunks), and many against a few
+            n1, n2 = [(int(rng.choice([2, 3, 5])), int(rng.choice([9, 20, 31]))), (int(rng.choice([13, 24, 37])), int(rng.choice([1, 4])))][(it // 2) % 2]
         L = float(rng.choice([6.0, 10.0, 50.0]))
         box = np.repeat([[L, L * 1.3, L * 0.9]], F, axis=0)
         p1 = rng.uniform(0, 1, (F, n1, 3)) * box[:, None, :]
